@@ -529,7 +529,7 @@ func (env *c18Env) run(s c18Scenario) (*c18Run, error) {
 	cmd.Dir = dir
 	// runtime knobs only (no effect on what the program does): fewer goroutine migrations between
 	// threads, because strace counts "when=" per thread
-	cmd.Env = append(os.Environ(), "GOGC=off", "GODEBUG=asyncpreemptoff=1")
+	cmd.Env = append(os.Environ(), "GOGC=off", "GODEBUG=asyncpreemptoff=1", "GOMAXPROCS=1")
 	var stderr bytes.Buffer
 	cmd.Stderr = &stderr
 	cmd.Stdout = &stderr
@@ -962,6 +962,9 @@ func c18FixedFiles() []c18File {
 // ---------- driver ----------
 
 func c18RepoDir() string {
+	if d := os.Getenv("C18_REPO"); d != "" { // sanity-testing the check against a mutated copy of the repo
+		return d
+	}
 	root := os.Getenv("VERIF_ROOT")
 	if root == "" {
 		root = "."
@@ -1081,7 +1084,13 @@ func runC18(cfg Config, r *Result) {
 
 	files := c18FixedFiles()
 	nFaultFiles := cfg.N(8, 30)
-	nGen := cfg.N(24, 400)
+	nGen := cfg.N(16, 300)
+	if v, err := strconv.Atoi(os.Getenv("C18_NFAULT")); err == nil { // knobs for sanity-testing the check itself
+		nFaultFiles = v
+	}
+	if v, err := strconv.Atoi(os.Getenv("C18_NGEN")); err == nil {
+		nGen = v
+	}
 	for i := 0; i < nGen; i++ {
 		files = append(files, c18GenFile(cfg.Rng, i))
 	}
@@ -1174,7 +1183,7 @@ func runC18(cfg Config, r *Result) {
 				jobs <- job{s: c18Scenario{File: f, Cmd: "write", Fault: ft}, o: o, base: base}
 			}
 			// the same for check mode on a few files (no write may ever happen)
-			if faultFiles <= cfg.N(2, 6) {
+			if faultFiles <= cfg.N(1, 6) {
 				sc := c18Scenario{File: f, Cmd: "check", Fault: c18Fault{Kind: "none"}}
 				if bc, err := env.run(sc); err == nil {
 					for _, ft := range c18FaultsOf(bc) {
